@@ -91,6 +91,7 @@ def run_history(nc0: int, pend0: int, h: list, key, rng):
     roots, groups, ginfo = {}, [], []
     dirty, ninj = set(), 0
     obs, fails, wb, all_right = [], [], True, True
+    concrete = {}
     attempt = {}
     node.inject_ok = lambda raw: attempt['ok']
     orig_post = node.post
@@ -138,9 +139,46 @@ def run_history(nc0: int, pend0: int, h: list, key, rng):
                 obs.append(('SimFailed',))
             else:
                 obs.append(('Other', f'{type(res).__name__}: {res}'[:200]))
+        elif kind == 'SendAsync':
+            # send_async(ttl, counter, gas_limit, storage_limit) = fill(counter=c) + sign + inject(prevalidate=False); the caller chooses
+            # the counter: node counter + pending + 1 + delta (delta = 0: the right one).  Model: FillAt l n c; Inject g ok
+            l, n, okflag, delta = c[1], c[2], c[3], c[4]
+            cnt = node.counters[pkh] + pending() + 1 + delta
+            concrete[idx] = [('FillAt', l, n, cnt), ('Inject', len(groups), okflag)]
+            wb = wb and n > 0 and delta == 0
+            was_dirty = l in dirty
+            attempt.clear()
+            attempt['ok'] = okflag
+            expected = node.counters[pkh] + pending() + 1
+            g = build(l, n)
+            ok, res = lib.call(lambda: g.send_async(ttl=5, counter=cnt, gas_limit=10000 * n, storage_limit=300 * n))
+            raw = attempt.get('raw')
+            if raw is None or ok != okflag:
+                obs.append(('Other', f'send_async: ok={ok} {res!r}'[:200]))
+                obs.append(('None',))
+                groups.append(None)
+                ginfo.append({'lineage': l, 'stamp': ninj, 'refilled': was_dirty, 'plain_fill_with_pending': False, 'filled_at': idx})
+                continue
+            parsed = parse_payload(raw)
+            ctrs = [x[1] for x in parsed]
+            good_shape = all(s == src21 for s, _ in parsed) and ctrs == list(range(ctrs[0], ctrs[0] + len(ctrs))) and len(ctrs) == n
+            obs.append(('Filled', ctrs[0], n) if good_shape else ('Other', f'send_async counters {ctrs}'))
+            obs.append(('Injected', ctrs[0], len(ctrs), okflag) if good_shape else ('Other', f'payload counters {ctrs}'))
+            groups.append(res if ok else None)
+            ginfo.append({'lineage': l, 'stamp': ninj, 'refilled': was_dirty, 'plain_fill_with_pending': False, 'filled_at': idx,
+                          'explicit_counter': True})
+            dirty.discard(l)
+            if okflag:
+                if not (good_shape and ctrs[0] == expected):
+                    all_right = False
+                    if delta == 0:   # a wrong counter chosen by the caller (delta != 0) is the caller's business
+                        fails.append({'call_index': idx, 'group': len(groups) - 1, 'carried': ctrs, 'expected_first': expected, **ginfo[-1], 'stale': False})
+                ninj += 1
+                add_pending(len(ctrs), str(idx))
         elif kind == 'Send':
             # OperationGroup.send() = autofill().sign().inject(); observed as the two model calls Autofill l n true; Inject g ok
             l, n, okflag = c[1], c[2], c[3]
+            concrete[idx] = [('Autofill', l, n, True), ('Inject', len(groups), okflag)]
             wb = wb and n > 0 and l not in dirty
             was_dirty = l in dirty
             node.metadata_for = lambda i, cc: {'operation_result': {'status': 'applied', 'consumed_milligas': '100000'}}
@@ -213,32 +251,21 @@ def run_history(nc0: int, pend0: int, h: list, key, rng):
             node.mempool_unprocessed = [op for op in node.mempool_unprocessed
                                         if not any(cc.get('source') == pkh for cc in (op[1] if isinstance(op, list) else op).get('contents', []))]
             obs.append(('None',))
-    return obs, all_right, wb, fails
+    model_h = []
+    for idx, c in enumerate(h):
+        model_h += concrete.get(idx, [c])
+    return obs, all_right, wb, fails, model_h
 
 
 # ---- Coq rendering ---------------------------------------------------------------------------------------------------
-def expand(h):
-    """model history: Send l n ok = Autofill l n true; Inject <new group id> ok"""
-    out, ngroups = [], 0
-    for c in h:
-        if c[0] == 'Send':
-            out += [('Autofill', c[1], c[2], True), ('Inject', ngroups, c[3])] if c[2] > 0 else [('Autofill', c[1], c[2], True)]
-            ngroups += 1 if c[2] > 0 else 0
-        else:
-            out.append(c)
-            if c[0] == 'Fill' and c[2] > 0:
-                ngroups += 1
-            if c[0] == 'Autofill' and c[2] > 0 and c[3]:
-                ngroups += 1
-    return out
-
-
 def coq_call(c) -> str:
     k = c[0]
     if k == 'Fill':
         return f'(Fill {cnat(c[1])} {cN(c[2])})'
     if k == 'Autofill':
         return f'(Autofill {cnat(c[1])} {cN(c[2])} {cbool(c[3])})'
+    if k == 'FillAt':
+        return f'(FillAt {cnat(c[1])} {cN(c[2])} {cN(c[3])})'
     if k == 'Sign':
         return f'(Sign {cnat(c[1])})'
     if k == 'Inject':
@@ -278,9 +305,9 @@ def gen_wellbehaved(rng, maxlen):
                 h.append(('Bake',))
                 pend = 0
             h.append(('Fill', l, n))
-        elif rng.random() < 0.3:   # the one-call path: send() = autofill().sign().inject()
+        elif rng.random() < 0.3:   # the one-call paths: send() = autofill().sign().inject(); send_async(counter=right one)
             ok = rng.random() < 0.8
-            h.append(('Send', l, n, ok))
+            h.append(('Send', l, n, ok) if rng.random() < 0.6 else ('SendAsync', l, n, ok, 0))
             ngroups += 1
             if ok:
                 pend += n
@@ -325,14 +352,25 @@ def gen_prebuilt(rng, maxlen):
     if rng.random() < 0.3:
         h += [('Autofill', (l + 1) % 3, rng.choice([1, 2]), True), ('Inject', 0, True), ('Bake',)]
     first = sum(1 for c in h if c[0] == 'Autofill')
-    for _ in range(k):
-        h.append(('Fill', l, rng.choice([1, 2, 2, 3])))
+    pend0 = 0
+    if rng.random() < 0.5:
+        for _ in range(k):
+            h.append(('Fill', l, rng.choice([1, 2, 2, 3])))
+    else:   # autofilled back to back while operations of the account are pending (initially, or the unbaked one above)
+        pend0 = rng.choice([0, 1, 2])
+        if h and h[-1] == ('Bake',) and rng.random() < 0.7:
+            h.pop()
+        if rng.random() < 0.3:
+            h.append(('SendAsync', (l + 2) % 3, 1, True, 0))
+            first += 1
+        for _ in range(k):
+            h.append(('Autofill', l, rng.choice([1, 2, 2, 3]), True))
     refuse_at = rng.randrange(k) if rng.random() < 0.25 else None
     for i in range(k):
         h.append(('Inject', first + i, i != refuse_at))
         if rng.random() < 0.2:
             h.append(('Bake',))
-    return 0, h[:max(maxlen, len(h))]
+    return pend0, h[:max(maxlen, len(h))]
 
 
 def gen_arbitrary(rng, maxlen):
@@ -341,7 +379,10 @@ def gen_arbitrary(rng, maxlen):
         k = rng.random()
         if k < 0.12:
             ok = rng.random() < 0.8
-            h.append(('Send', rng.randrange(3), rng.choice([1, 1, 2, 3]), ok))
+            if rng.random() < 0.5:
+                h.append(('Send', rng.randrange(3), rng.choice([1, 1, 2, 3]), ok))
+            else:
+                h.append(('SendAsync', rng.randrange(3), rng.choice([1, 1, 2]), ok, rng.choice([0, 0, 0, 1])))
             if ok:
                 usable.append(ngroups)
             ngroups += 1
@@ -374,6 +415,10 @@ FIXED = [
     # pre-building two groups on one lineage and injecting them in order (the cache's legitimate use)
     (126, 0, [('Fill', 0, 1), ('Fill', 0, 2), ('Inject', 0, True), ('Inject', 1, True)]),
     (10, 0, [('Fill', 0, 2), ('Fill', 0, 2), ('Inject', 0, True), ('Inject', 1, True)]),
+    (10, 1, [('Autofill', 0, 1, True), ('Autofill', 0, 1, True), ('Inject', 0, True), ('Inject', 1, True)]),
+    (18, 0, [('SendAsync', 0, 1, True, 0), ('Send', 0, 1, True)]),
+    (18, 0, [('SendAsync', 0, 2, True, 0), ('Autofill', 0, 1, True), ('Inject', 1, True), ('Bake',), ('SendAsync', 1, 1, True, 0)]),
+    (5, 2, [('SendAsync', 1, 1, False, 0), ('SendAsync', 1, 1, True, 0), ('Autofill', 1, 2, True), ('Inject', 2, True)]),
     (10, 0, [('Fill', 1, 3), ('Fill', 1, 2), ('Fill', 1, 1), ('Inject', 0, True), ('Bake',), ('Inject', 1, True), ('Inject', 2, True)]),
     (0, 2, [('Autofill', 1, 1, True), ('Inject', 0, False), ('Inject', 0, True), ('Bake',), ('Autofill', 1, 1, True), ('Inject', 1, True)]),
 ]
@@ -430,14 +475,14 @@ def run(ctx: lib.Ctx) -> None:
     reported = 0
     counts = {'wb': 0, 'wb_with_injection': 0, 'stale_skipped': 0}
     for nc0, pend0, h in hist:
-        obs, all_right, wb, fails = run_history(nc0, pend0, h, key, rng)
+        obs, all_right, wb, fails, model_h = run_history(nc0, pend0, h, key, rng)
         n_inj = sum(1 for o in obs if o[0] == 'Injected')
         ctx.case((nc0, pend0, tuple(h)), nontrivial=n_inj > 0,
                  kind=f"{'wb' if wb else 'arbitrary'}:{'right' if all_right else 'wrong'}:inj{min(n_inj, 3)}",
                  sample={'node_counter': nc0, 'pending': pend0, 'history': [list(c) for c in h], 'observed': [list(o) for o in obs]})
         counts['wb'] += wb
         counts['wb_with_injection'] += bool(wb and n_inj)
-        cases.append((f"({cN(nc0)}, {cN(pend0)}, {clist(coq_call(c) for c in expand(h))})",
+        cases.append((f"({cN(nc0)}, {cN(pend0)}, {clist(coq_call(c) for c in model_h)})",
                       f"({clist(coq_obs(o) for o in obs)}, {cbool(all_right)}, {cbool(wb)})"))
         meta.append((nc0, pend0, h, obs, all_right, wb, fails))
         others = [o for o in obs if o[0] == 'Other']
@@ -506,6 +551,6 @@ def replay_doc(nc0, pend0, h, obs, fail):
 
 def replay(ctx, doc):
     key = make_key(ctx.rng, b'ed')
-    obs, all_right, wb, fails = run_history(doc['node_counter'], doc['pending'], [tuple(c) for c in doc['history']], key, ctx.rng)
+    obs, all_right, wb, fails, _mh = run_history(doc['node_counter'], doc['pending'], [tuple(c) for c in doc['history']], key, ctx.rng)
     print(json.dumps({'observed': obs, 'all_right': all_right, 'well_behaved': wb, 'failures': fails}, indent=1, default=repr))
     return any(classify(f) is None for f in fails)
